@@ -1,6 +1,7 @@
 (* C06 — facts about the regenerated shipped library, by computation over the finite table. *)
 From Coq Require Import ZArith QArith List String Bool.
-From OMV Require Import Base.Val C06.Model C06.GenUnitLib C06.Lib C06.Proofs C06.ProofsNames C06.ProofsFind.
+From OMV Require Import Base.Val C06.Model C06.GenUnitLib C06.Lib C06.Proofs C06.ProofsNames C06.ProofsFind
+     C06.ProofsSimplify C06.ProofsDim.
 Import ListNotations.
 Open Scope string_scope.
 
@@ -69,3 +70,27 @@ Proof.
   vm_compute. do 4 eexists. split; [reflexivity|]. split; [reflexivity|].
   eexists. split; [reflexivity|]. reflexivity.
 Qed.
+
+Lemma lib_dim : table_dim (l_nbase lib) (l_tbl lib).
+Proof.
+  apply table_wf_dim. destruct library_wf as (_ & _ & H).
+  unfold lib_wf in H. apply andb_true_iff in H. exact (proj1 H).
+Qed.
+
+(* simplify preserves dimension and factor on the shipped library: the name printed for any unit an
+   expression evaluates to, when it evaluates to a unit again, is that unit *)
+Lemma lib_name_roundtrip : forall e u o u' o',
+  lits_nz e -> eval None (l_tbl lib) e = Ok (PUnit u o) ->
+  eval None (l_tbl lib) (name_expr u) = Ok (PUnit u' o') ->
+  u_powers u' = u_powers u /\ (u_factor u' == u_factor u)%Q.
+Proof.
+  intros e u o u' o' Hl He Hn.
+  exact (name_evaluates_to_same_unit _ _ e u o u' o' lib_named lib_dim Hl He Hn).
+Qed.
+
+(* non-vacuity: ft*s/s evaluates, prints "ft", and "ft" evaluates to a unit *)
+Lemma lib_name_roundtrip_example :
+  exists u o u' o',
+    (eval None (l_tbl lib) (EDiv (EMul (EName "ft") (EName "s")) (EName "s")) = Ok (PUnit u o)) /\
+    (eval None (l_tbl lib) (name_expr u) = Ok (PUnit u' o')) /\ (simplify_str u = Some "ft").
+Proof. do 4 eexists. split; [vm_compute; reflexivity|]. split; vm_compute; reflexivity. Qed.
